@@ -10,8 +10,9 @@ Property theorems only. The model: `Table.fmtToStr` (= `str(table.fmt)`), `Table
 header, footer): constructed from a format string or from column objects or — `fmt_obj=` — from
 the format of any other reachable table with the same fields, after any history of printing,
 `table.fmt = <any string>` and re-construction from any string.
-`Table.lines t`: the lines `t` prints. `Table.NameOk s`: `s` contains none of `, : ; ! / < ( )` and
-has no blank at either end (what a format string can express). `Table.ModOk m`: the modifier `m` — free
+`Table.lines t`: the lines `t` prints. `Table.NameOk s`: `s` contains none of `, : ; / <`,
+has no blank at either end and does not end in `!` (what a format string can express: an inner `!`,
+parentheses, `-` are fine — the break-by mark is a *trailing* `!`). `Table.ModOk m`: the modifier `m` — free
 text for user-written field types — contains none of `, : ; ! <` and does not end in a blank (a `/`
 inside it is fine: the name ends at the *first* `/`). `Table.CustomModsOk cols`: the modifiers of the
 columns of user-written field types are `ModOk` (those the built-in types accept always are).
@@ -333,5 +334,13 @@ private def limArgs : CtorArgs :=
 
 example : (mkTable limArgs >>= render).map (fun x => String.ofList (fmtToStr (setLimits x.1 (some 1) (some 1)).fmt))
     = .ok "a:1-999,b:1-999;1:1" := by decide +kernel
+
+/-! Field names with characters that are format marks elsewhere: an inner `!`, parentheses, `-`. -/
+
+example : NameOk "qty!=0".toList ∧ NameOk "f(x)-1".toList :=
+  ⟨⟨by decide, edgeOk_of_all _ (by decide), by decide⟩, ⟨by decide, edgeOk_of_all _ (by decide), by decide⟩⟩
+
+example : parseCol "qty!=0!:3-9".toList
+    = .ok ⟨"qty!=0".toList, Option.none, true, Option.none, .range 3 9⟩ := by decide +kernel
 
 end C13
